@@ -28,11 +28,24 @@ func Tanh(X tensor.Tensor) (tensor.Tensor, error) {
 	return tensor.Tanh(X)
 }
 
+// maxExpArgument bounds the argument handed to the float32 exponential.
+const maxExpArgument = 1e9
+
 // Sigmoid performs the sigmoid operation on a tensor.
 func Sigmoid(X tensor.Tensor) (tensor.Tensor, error) {
 	negX, err := tensor.Neg(X)
 	if err != nil {
 		return nil, err
+	}
+
+	// The float32 exponential of the tensor library returns 0 instead of +Inf for arguments
+	// of 2^31 and above. Limit the argument to a range in which it is correct; the exponential
+	// overflows (or underflows) far inside this range, so the result is unchanged.
+	if negX.Dtype() == tensor.Float32 {
+		negX, err = tensor.Clamp(negX, float32(-maxExpArgument), float32(maxExpArgument))
+		if err != nil {
+			return nil, err
+		}
 	}
 
 	expX, err := tensor.Exp(negX)
